@@ -1,5 +1,5 @@
 #!/usr/bin/env python3
-"""Prints the status table of DESIGN.md 10.1 from the summary of the last full pass (work/final/summary3.txt)."""
+"""Prints the status table of DESIGN.md 10.1 from the summaries of the last passes (work/final/summary3.txt, overridden per id and tier by summary5.txt)."""
 import re, sys, os
 R = os.path.dirname(os.path.dirname(os.path.abspath(__file__)))
 ENG = {
@@ -13,7 +13,11 @@ ENG = {
  "C19": "seqx cluster states × queries, request shapes", "C20": "seqx length-field faults in child processes, 2 builds",
 }
 rows = {}
-for l in open(os.path.join(R, "work/final/summary3.txt")):
+lines = []
+for f in ("work/final/summary3.txt", "work/final/summary5.txt"):  # the later pass overrides the earlier one per (id, tier)
+    if os.path.exists(os.path.join(R, f)):
+        lines += open(os.path.join(R, f)).readlines()
+for l in lines:
     m = re.match(r"(C\d+) (quick|thorough) rc=(\d+) (\d+) alarms; .*?: (\d+) executions, (\d+) decision steps, (\d+) distinct outcomes, (\d+) scenarios, exhaustive=(\w+), violations=(\d+), (\d+)s", l)
     if m:
         rows.setdefault(m.group(1), {})[m.group(2)] = m.groups()
